@@ -254,6 +254,20 @@ func ruleImmut(w *World, r *Run, rule string, fs []fieldRef) {
 								r.Fail(rule, key, w.pos(x.Pos()), "map "+f.typ+"."+f.field+" has an entry deleted in "+short(fn.String()))
 							}
 						}
+						// mutation of a concurrent container / atomic held in the field (sync.Map.Store, atomic.Value.Store, …)
+						if sc := x.Call.StaticCallee(); sc != nil && sc.Signature.Recv() != nil && len(x.Call.Args) > 0 {
+							name := funcName(sc)
+							mut := false
+							for _, m := range []string{").Store", ").LoadOrStore", ").LoadAndDelete", ").Delete", ").Swap", ").CompareAndSwap", ").CompareAndDelete", ").Add", ").Clear"} {
+								if strings.HasPrefix(name, "(*sync") && strings.HasSuffix(name, m) {
+									mut = true
+								}
+							}
+							if fa, ok := x.Call.Args[0].(*ssa.FieldAddr); ok && mut && fieldOfAddr(fa) == fv && !baseIsLocalAlloc(fa.X) {
+								bad++
+								r.Fail(rule, key, w.pos(x.Pos()), "field "+f.typ+"."+f.field+" is a concurrent container/atomic mutated in "+short(fn.String())+" ("+short(name)+"): state that outlives the request and is shared across logs and requests")
+							}
+						}
 					}
 				}
 			}
@@ -342,16 +356,49 @@ func ruleSoleWriter(w *World, r *Run, rule string) {
 		r.Undecided(rule, fnUpdate, "", "anchor not found")
 		return
 	}
-	ckField := w.structField(pInmem, "inMemoryPersistence", "checkpoints")
-	if ckField == nil {
-		r.Undecided(rule, pInmem+".inMemoryPersistence.checkpoints", "", "field not found")
-	}
 	nWrite, nSet, nMap, nExec := 0, 0, 0, 0
-	implNames := map[string]string{
-		fnSQLSet: "Set", fnMemSet: "Set", fnSQLWriteOps: "WriteOps", fnMemWriteOps: "WriteOps", fnMemExpect: "expectAndWrite",
+	// concrete write entry points: the stores' implementations of LogStateWriteOps.Set and LogStatePersistence.WriteOps/Init
+	implNames := map[string]string{}
+	writeEntry := map[string]bool{cSet: true, cWriteOps: true}
+	setRoots := map[string]map[*ssa.Function]bool{}  // per package
+	initRoots := map[string]map[*ssa.Function]bool{}
+	for _, im := range []struct{ iface, meth string }{{"LogStateWriteOps", "Set"}, {"LogStatePersistence", "WriteOps"}, {"LogStatePersistence", "Init"}} {
+		m := ifaceMethod(w, pPersist, im.iface, im.meth)
+		if m == nil {
+			r.Undecided(rule, pPersist+"."+im.iface+"."+im.meth, "", "interface method not found")
+			return
+		}
+		for _, f := range w.implementations(m) {
+			if !w.isProd(f) || f.Synthetic != "" {
+				continue
+			}
+			if im.meth != "Init" {
+				implNames[funcName(f)] = im.meth
+				writeEntry[funcName(f)] = true
+			}
+			tbl := setRoots // write roots: Set and WriteOps (a closure built in WriteOps counts as part of it)
+			if im.meth == "Init" {
+				tbl = initRoots
+			}
+			if tbl[pkgPathOf(f)] == nil {
+				tbl[pkgPathOf(f)] = map[*ssa.Function]bool{}
+			}
+			tbl[pkgPathOf(f)][f] = true
+		}
 	}
-	// write entry points must not escape as function values (a call through a value would bypass the who-may-call rule)
-	writeEntry := map[string]bool{cSet: true, cWriteOps: true, fnSQLSet: true, fnMemSet: true, fnSQLWriteOps: true, fnMemWriteOps: true}
+	if len(setRoots[pInmem]) == 0 || len(setRoots[pSQL]) == 0 || len(initRoots[pSQL]) == 0 {
+		r.Undecided(rule, "storage implementations", "", "could not find the stores' Set/Init implementations")
+		return
+	}
+	var ckField *types.Var
+	if st := storeType(w, "inmemory"); st != nil {
+		if mf := memMapField(mk("preset", "inmemory", 0, st)); mf != nil {
+			ckField = structFieldVar(st, mf.Name)
+		}
+	}
+	if ckField == nil {
+		r.Undecided(rule, "in-memory store | checkpoint map", "", "field not found")
+	}
 	for _, fn := range w.prodFns() {
 		for _, b := range fn.Blocks {
 			for _, in := range b.Instrs {
@@ -385,8 +432,8 @@ func ruleSoleWriter(w *World, r *Run, rule string) {
 					if mf, base := mapFieldOf(x.Map); mf != nil && mf == ckField {
 						nMap++
 						key := "in-memory checkpoints map | updated only by the compare-and-set"
-						ok := w.onlyReachableFrom(fn, w.rootsOf(fnMemExpect)) || baseIsLocalAlloc(base)
-						r.Check(ok, rule, key, w.pos(x.Pos()), "the in-memory checkpoint map is written in "+short(fn.String())+", outside expectAndWrite")
+						ok := w.onlyReachableFrom(fn, setRoots[pInmem]) || baseIsLocalAlloc(base)
+						r.Check(ok, rule, key, w.pos(x.Pos()), "the in-memory checkpoint map is written in "+short(fn.String())+", which is reachable otherwise than through the store's WriteOps/Set")
 					}
 					continue
 				default:
@@ -413,7 +460,7 @@ func ruleSoleWriter(w *World, r *Run, rule string) {
 					key := short(name) + " | invoked only from Update"
 					r.Check(w.onlyReachableFrom(fn, map[*ssa.Function]bool{updFn: true}), rule, key, w.pos(in.Pos()), short(name)+" is invoked from "+short(fn.String())+", which is reachable from outside Update; only Update (and helpers private to it) may open a write operation or store a checkpoint")
 				}
-				if what, ok := implNames[name]; ok && pkgPathOf(fn) != pkgPathOf(w.fn(name)) {
+				if what, ok := implNames[name]; ok && w.fn(name) != nil && pkgPathOf(fn) != pkgPathOf(w.fn(name)) {
 					r.Fail(rule, short(name)+" | not called directly from outside its package", w.pos(in.Pos()), "storage implementation method "+what+" is called directly from "+short(fn.String()))
 				}
 				if isExec, onTx := isSQLExec(name); isExec {
@@ -440,10 +487,10 @@ func ruleSoleWriter(w *World, r *Run, rule string) {
 					case st.err != "":
 						r.Undecided(rule, key, w.pos(in.Pos()), "SQL tokenizer: "+st.err)
 					case sqlMutating[st.verb]:
-						ok := onTx && w.onlyReachableFrom(fn, w.rootsOf(fnSQLSet))
+						ok := onTx && w.onlyReachableFrom(fn, setRoots[pSQL])
 						r.Check(ok, rule, key+" | mutating statement only in writer.Set on the transaction", w.pos(in.Pos()), fmt.Sprintf("mutating SQL statement (%s) executed in %s (on transaction: %v); only writer.Set may mutate, and only inside the transaction", st.verb, short(fn.String()), onTx))
 					case st.verb == "CREATE":
-						ok := st.ifNotExists && w.onlyReachableFrom(fn, w.rootsOf(fnSQLInit))
+						ok := st.ifNotExists && w.onlyReachableFrom(fn, initRoots[pSQL])
 						r.Check(ok, rule, key+" | idempotent DDL only in Init", w.pos(in.Pos()), "CREATE statement outside Init or without IF NOT EXISTS")
 					default:
 						r.Undecided(rule, key, w.pos(in.Pos()), "unclassified SQL verb "+st.verb)
@@ -724,114 +771,8 @@ func sqlSites(w *World) []sqlSite {
 
 // ---------------------------------------------------------------- C03.c STORAGE-REFUSAL, C06.a/b, C05.e
 
-func ruleStorageRefusal(w *World, r *Run, rule string) {
-	ruleCloseIsRollback(w, r, rule)
-	// SQL: Set can only succeed through Commit
-	ruleCommitBeforeAck(w, r, rule)
-	// in-memory: update only on the nil-returning paths of the compare-and-set
-	if sums, _, ok := explore(w, r, rule, fnMemExpect, 4, 1); ok {
-		nUpd := 0
-		for _, s := range sums {
-			ups := eventsOfKind(s, "mapupdate", "mapdelete")
-			if len(ups) == 0 {
-				continue
-			}
-			nUpd++
-			good := len(s.Rets) == 1 && s.Rets[0].Kind == "nil"
-			r.Check(good, rule, fnMemExpect+" | map written only when nil is returned", w.pos(ups[0].Pos), "the in-memory map is written on a path that reports an error (a refused write would still change state)")
-		}
-		if nUpd == 0 {
-			r.Undecided(rule, fnMemExpect, "", "no path updates the map")
-		}
-	}
-	// read-side and handle-opening methods perform no mutation
-	for _, name := range []string{fnSQLWriteOps, fnSQLReadOps, fnSQLLogs, fnSQLWGet, fnSQLRGet, fnMemWriteOps, fnMemReadOps, fnMemLogs, fnMemGet, fnMemClose} {
-		sums, _, ok := explore(w, r, rule, name, 4, 1)
-		if !ok {
-			continue
-		}
-		clean := true
-		for _, s := range sums {
-			for _, ev := range s.Events {
-				isE, _ := isSQLExec(ev.Callee)
-				if ev.Kind == "mapupdate" || ev.Kind == "mapdelete" || (ev.Kind == "call" && (isE || ev.Callee == "(*database/sql.Tx).Commit")) {
-					clean = false
-					r.Fail(rule, name+" | performs no mutation", w.pos(ev.Pos), short(name)+" mutates storage ("+ev.Kind+" "+short(ev.Callee)+")")
-				}
-			}
-		}
-		if clean {
-			r.Pass(rule, name+" | performs no mutation", w.pos(w.fn(name).Pos()), "")
-		}
-	}
-}
 
-// ruleCloseIsRollback: SQL Close == Rollback (and only Rollback) on the handle's transaction, on every path.
-func ruleCloseIsRollback(w *World, r *Run, rule string) {
-	if sums, _, ok := explore(w, r, rule, fnSQLClose, 4, 1); ok {
-		fn := w.fn(fnSQLClose)
-		tx := mk("field", "tx", 0, nil, recvParam(fn))
-		for _, s := range sums {
-			rb := calls(s, "(*database/sql.Tx).Rollback")
-			good := len(rb) == 1 && rb[0].Recv == tx && len(calls(s, "(*database/sql.Tx).Commit")) == 0
-			for _, ev := range s.Events {
-				if isE, _ := isSQLExec(ev.Callee); ev.Kind == "call" && isE {
-					good = false
-				}
-			}
-			r.Check(good, rule, fnSQLClose+" | Close is Rollback on the handle's transaction, on every path", w.pos(s.RetPos), "writer.Close must roll back (and only roll back) the transaction begun by WriteOps on every path: a Close that commits makes refusals write, a Close that sometimes does nothing leaves the transaction (and the single connection) pinned")
-		}
-	}
-}
 
-// C06.a (SQL half): a possibly-nil return of writer.Set is exactly Commit's result after a successful Exec.
-func ruleCommitBeforeAck(w *World, r *Run, rule string) {
-	sums, _, ok := explore(w, r, rule, fnSQLSet, 4, 1)
-	if !ok {
-		return
-	}
-	fn := w.fn(fnSQLSet)
-	tx := mk("field", "tx", 0, nil, recvParam(fn))
-	nCommit := 0
-	for _, s := range sums {
-		if len(s.Rets) != 1 {
-			r.Fail(rule, fnSQLSet+" | return shape", w.pos(s.RetPos), "unexpected return arity")
-			continue
-		}
-		ret := s.Rets[0]
-		key := fnSQLSet + " | nil only through Commit after a successful Exec"
-		if neverNil(ret) {
-			// definitely an error: must not have committed
-			c := calls(s, "(*database/sql.Tx).Commit")
-			if len(c) > 0 && !failed(s, c[0]) && !wraps(ret, c[0].Res) {
-				r.Fail(rule, key, w.pos(s.RetPos), "an error is reported although the transaction was committed")
-			} else {
-				r.Pass(rule, key, w.pos(s.RetPos), "")
-			}
-			continue
-		}
-		commits := calls(s, "(*database/sql.Tx).Commit")
-		var execs []Event
-		for _, ev := range s.Events {
-			if isE, _ := isSQLExec(ev.Callee); ev.Kind == "call" && isE {
-				execs = append(execs, ev)
-			}
-		}
-		good := len(commits) == 1 && commits[0].Recv == tx && len(execs) == 1 && execs[0].Recv == tx && execs[0].Seq < commits[0].Seq && okBefore(s, execs[0], commits[0].Seq)
-		if good {
-			// returned value is Commit's result, or nil under the fact that Commit succeeded
-			cres := commits[0].Res
-			good = ret == cres || (ret.Kind == "nil" && okBefore(s, commits[0], 0))
-		}
-		if good {
-			nCommit++
-		}
-		r.Check(good, rule, key, w.pos(s.RetPos), "writer.Set can report success without having executed its statement and committed on the handle's transaction (acknowledged update not durable); path: "+pathString(engFor(w, 4, 1), s))
-	}
-	if nCommit == 0 {
-		r.Undecided(rule, fnSQLSet, "", "no committing path recognised")
-	}
-}
 
 // C06.b ONE-STATEMENT-IN-TX and writer/reader table agreement
 func ruleOneStatement(w *World, r *Run, rule string) {
@@ -843,11 +784,13 @@ func ruleOneStatement(w *World, r *Run, rule string) {
 			r.Undecided(rule, "SQL statement in "+short(funcName(outermost(s.fn))), s.pos, "SQL tokenizer: "+s.st.err+": "+s.text)
 			continue
 		}
-		host := funcName(outermost(s.fn))
 		switch {
 		case s.st.verb == "CREATE":
 			create = s
-		case (s.st.verb == "INSERT" || s.st.verb == "REPLACE") && (host == fnSQLSet || w.onlyReachableFrom(s.fn, w.rootsOf(fnSQLSet))):
+		case s.st.verb == "INSERT" || s.st.verb == "REPLACE":
+			if upsert != nil {
+				r.Fail(rule, "SQL constants | one writing statement", s.pos, "more than one INSERT/REPLACE statement in the SQL store")
+			}
 			upsert = s
 		case s.st.verb == "SELECT" && s.st.whereCol != "":
 			sel = s
@@ -876,6 +819,9 @@ func ruleOneStatement(w *World, r *Run, rule string) {
 	default:
 		r.Pass(rule, key, upsert.pos, "")
 	}
+	if len(u.cols) < 2 {
+		return
+	}
 	key = "reader/writer column agreement"
 	switch {
 	case len(sel.st.cols) != 1 || !strings.EqualFold(sel.st.cols[0], u.cols[1]):
@@ -887,163 +833,12 @@ func ruleOneStatement(w *World, r *Run, rule string) {
 	default:
 		r.Pass(rule, key, sel.pos, "")
 	}
-	// binding of arguments: first placeholder <- handle's logID, second <- the checkpoint parameter
-	if sums, _, ok := explore(w, r, rule, fnSQLSet, 4, 1); ok {
-		fn := w.fn(fnSQLSet)
-		recv := recvParam(fn)
-		for _, s := range sums {
-			for _, ev := range calls(s, "(*database/sql.Tx).Exec", "(*database/sql.Tx).ExecContext") {
-				va := ev.Args[len(ev.Args)-1]
-				good := va.Kind == "varargs" && len(va.Args) == 2 && va.Args[0] == mk("field", "logID", 0, nil, recv) && va.Args[1] == paramN(fn, 0)
-				r.Check(good, rule, fnSQLSet+" | placeholders bound to (handle's log ID, checkpoint bytes)", w.pos(ev.Pos), "Exec arguments are "+short(va.String())+", want (w.logID, c)")
-			}
-		}
-	}
+	// binding of arguments (first placeholder <- the request's log ID, second <- the cosigned bytes): on Update ∘ sql
+	ruleComposedSQL(w, r, rule)
 }
 
-// C05.e TXN-SCOPE
-func ruleTxnScope(w *World, r *Run, rule string) {
-	if sums, _, ok := explore(w, r, rule, fnSQLWGet, 4, 1); ok {
-		fn := w.fn(fnSQLWGet)
-		tx := mk("field", "tx", 0, nil, recvParam(fn))
-		n := 0
-		for _, s := range sums {
-			for _, ev := range s.Events {
-				if ev.Kind == "call" && isSQLQuery(ev.Callee) {
-					n++
-					r.Check(ev.Recv == tx, rule, fnSQLWGet+" | reads through the handle's transaction", w.pos(ev.Pos), "the write handle reads the previous checkpoint through "+short(fmt.Sprint(ev.Recv))+", not through its own transaction: the read is not isolated from a concurrent writer")
-				}
-			}
-		}
-		if n == 0 {
-			r.Undecided(rule, fnSQLWGet, "", "no query found")
-		}
-	}
-	if sums, _, ok := explore(w, r, rule, fnSQLWriteOps, 4, 1); ok {
-		fn := w.fn(fnSQLWriteOps)
-		db := mk("field", "db", 0, nil, recvParam(fn))
-		nOK := 0
-		for _, s := range sums {
-			if len(s.Rets) != 2 {
-				continue
-			}
-			begins := calls(s, "(*database/sql.DB).Begin", "(*database/sql.DB).BeginTx")
-			if s.Rets[1].Kind == "nil" {
-				h := s.Rets[0]
-				good := len(begins) == 1 && begins[0].Recv == db && okBefore(s, begins[0], 0) && h.Kind == "alloc" &&
-					memField(s, h, "tx") == res(begins[0], 0) && memField(s, h, "logID") == paramN(fn, 0)
-				if good {
-					nOK++
-				}
-				r.Check(good, rule, fnSQLWriteOps+" | handle = {tx: db.Begin(), logID: logID}", w.pos(s.RetPos), "WriteOps does not hand out a handle bound to a freshly begun transaction and to the requested log ID")
-			} else {
-				// C07.f: failure returns no handle and leaks no transaction
-				good := s.Rets[0].Kind == "nil" && (len(begins) == 0 || failed(s, begins[0]))
-				r.Check(good, "C07.f", fnSQLWriteOps+" | failure leaks no transaction", w.pos(s.RetPos), "WriteOps returns an error after a transaction was begun without rolling it back (leaked transaction blocks the single connection)")
-			}
-		}
-		if nOK == 0 {
-			r.Undecided(rule, fnSQLWriteOps, "", "no successful path recognised")
-		}
-	}
-	if sums, _, ok := explore(w, r, rule, fnSQLRGet, 4, 1); ok {
-		fn := w.fn(fnSQLRGet)
-		db := mk("field", "db", 0, nil, recvParam(fn))
-		for _, s := range sums {
-			for _, ev := range s.Events {
-				if ev.Kind == "call" && isSQLQuery(ev.Callee) {
-					r.Check(ev.Recv == db, rule, fnSQLRGet+" | reads through the pool", w.pos(ev.Pos), "reader does not query its own database handle")
-				}
-			}
-		}
-	}
-}
 
-func ruleNoLeakedTx(w *World, r *Run, rule string) {
-	// evaluated as part of ruleTxnScope (C07.f verdicts are emitted there)
-	sub := newRun(r.Prop, r.Tier, r.Seed)
-	ruleTxnScope(w, sub, "C05.e")
-	for _, v := range sub.verdicts {
-		if v.Rule == "C07.f" {
-			r.verdicts = append(r.verdicts, v)
-			r.evals++
-		}
-	}
-	for f := range sub.funcs {
-		r.funcs[f] = true
-	}
-	n := 0
-	for _, v := range r.verdicts {
-		if v.Rule == "C07.f" {
-			n++
-		}
-	}
-	if n == 0 {
-		r.Undecided(rule, fnSQLWriteOps, "", "no failing path of WriteOps found")
-	}
-}
 
-// C03.d LOGS-FROM-KEYS
-func ruleLogsFromKeys(w *World, r *Run, rule string) {
-	if sums, _, ok := explore(w, r, rule, fnGetLogs, 4, 1); ok {
-		fn := w.fn(fnGetLogs)
-		lsp := fieldByType(recvParam(fn), "persistence.LogStatePersistence")
-		for _, s := range sums {
-			lc := calls(s, cLogs)
-			good := len(lc) == 1 && lc[0].Recv == lsp && len(s.Rets) == 2 && s.Rets[0] == res(lc[0], 0) && s.Rets[1] == res(lc[0], 1)
-			r.Check(good, rule, fnGetLogs+" | returns the store's key list unchanged", w.pos(s.RetPos), "GetLogs does not return lsp.Logs() unchanged")
-		}
-	}
-	if sums, _, ok := explore(w, r, rule, fnMemLogs, 4, 2); ok {
-		ck := mk("field", "checkpoints", 0, nil, recvParam(w.fn(fnMemLogs)))
-		for _, s := range sums {
-			good := true
-			t := s.Rets[0]
-			for t.Kind == "append" {
-				for _, el := range t.Args[1:] {
-					if el.Kind != "varargs" {
-						good = false
-						continue
-					}
-					for _, x := range el.Args {
-						if !(x.Kind == "rangekey" && x.Args[0].Kind == "rangeiter" && x.Args[0].Args[0] == ck) {
-							good = false
-						}
-					}
-				}
-				t = t.Args[0]
-			}
-			if !(t.Kind == "alloc" || t.Kind == "nil" || t.Kind == "zero") {
-				good = false
-			}
-			r.Check(good, rule, fnMemLogs+" | list built from the map's keys only", w.pos(s.RetPos), "the in-memory log list contains something other than keys of the checkpoint map: "+short(s.Rets[0].String()))
-		}
-	}
-	// SQL: the list query projects the key column (checked with the tokenizer in C06.b/C12.b); here: every element appended comes from Scan
-	if sums, _, ok := explore(w, r, rule, fnSQLLogs, 4, 2); ok {
-		for _, s := range sums {
-			if len(s.Rets) != 2 || s.Rets[1].Kind != "nil" {
-				continue
-			}
-			good := true
-			anySub(s.Rets[0], func(t *Term) bool {
-				if t.Kind == "append" {
-					for _, el := range t.Args[1:] {
-						if el.Kind == "varargs" {
-							for _, x := range el.Args {
-								if !(x.Kind == "out" && x.Args[0].Kind == "call" && x.Args[0].Name == "(*database/sql.Rows).Scan") {
-									good = false
-								}
-							}
-						}
-					}
-				}
-				return false
-			})
-			r.Check(good, rule, fnSQLLogs+" | list built from scanned rows only", w.pos(s.RetPos), "the SQL log list contains an element that does not come from rows.Scan: "+short(s.Rets[0].String()))
-		}
-	}
-}
 
 // C04.d READ-VERBATIM
 func ruleReadVerbatim(w *World, r *Run, rule string) {
@@ -1087,120 +882,7 @@ func ruleReadVerbatim(w *World, r *Run, rule string) {
 
 // ---------------------------------------------------------------- C07.c (storage layer), C07.d, C07.e
 
-// ruleStorageErrDiscipline: in the SQL layer no success return without a nil-fact for each fallible call on the path.
-func ruleStorageErrDiscipline(w *World, r *Run, rule string) {
-	fallible := map[string]bool{
-		"(*database/sql.Tx).Exec": true, "(*database/sql.Tx).Commit": true, "(*database/sql.DB).Begin": true, "(*database/sql.Row).Err": true,
-		"(*database/sql.Row).Scan": true, "(*database/sql.Rows).Scan": true, "(*database/sql.Rows).Err": true, "(*database/sql.DB).Query": true, "(*database/sql.DB).Exec": true,
-		"(*database/sql.Tx).ExecContext": true, "(*database/sql.DB).BeginTx": true,
-	}
-	n := 0
-	for _, name := range []string{fnSQLSet, fnSQLWGet, fnSQLRGet, fnSQLWriteOps, fnSQLLogs, fnSQLInit} {
-		sums, _, ok := explore(w, r, rule, name, 4, 2)
-		if !ok {
-			continue
-		}
-		for _, s := range sums {
-			if len(s.Rets) == 0 {
-				continue
-			}
-			last := s.Rets[len(s.Rets)-1]
-			for _, ev := range s.Events {
-				if ev.Kind != "call" || !fallible[ev.Callee] || ev.AtExit {
-					continue
-				}
-				n++
-				key := name + " | error of " + short(ev.Callee) + " not dropped"
-				er := errRes(ev)
-				k, isNil, _ := nilFact(s, er)
-				switch {
-				case last == er: // returned as is
-					r.Pass(rule, key, w.pos(ev.Pos), "")
-				case last.Kind == "nil":
-					r.Check(k && isNil, rule, key, w.pos(ev.Pos), "success is returned although the error of "+short(ev.Callee)+" was never checked")
-				case k && !isNil:
-					r.Check(neverNil(last) || wraps(last, er), rule, key, w.pos(ev.Pos), "failure of "+short(ev.Callee)+" does not lead to a non-nil error")
-				default:
-					r.Pass(rule, key, w.pos(ev.Pos), "")
-				}
-			}
-		}
-	}
-	if n < 6 {
-		r.Undecided(rule, "SQL error discipline", "", fmt.Sprintf("vacuity floor: only %d fallible SQL calls seen", n))
-	}
-}
 
-// C07.d NOTFOUND-EXACT
-func ruleNotFoundExact(w *World, r *Run, rule string) {
-	nf := codesConst(w, "NotFound")
-	isNotFoundCtor := func(t *Term) (bool, bool) { // (is status ctor, is NotFound)
-		if t.Kind == "call" && (t.Name == "google.golang.org/grpc/status.Error" || t.Name == "google.golang.org/grpc/status.Errorf") && len(t.Args) > 2 {
-			return true, t.Args[2].Kind == "const" && t.Args[2].Name == nf
-		}
-		return false, false
-	}
-	for _, name := range []string{fnSQLWGet, fnSQLRGet} {
-		sums, _, ok := explore(w, r, rule, name, 4, 1)
-		if !ok {
-			continue
-		}
-		nNF := 0
-		for _, s := range sums {
-			if len(s.Rets) != 2 || s.Rets[1].Kind == "nil" {
-				continue
-			}
-			key := name + " | NotFound only from sql.ErrNoRows"
-			isSt, isNF := isNotFoundCtor(s.Rets[1])
-			scans := calls(s, "(*database/sql.Row).Scan")
-			noRows := false
-			for _, sc := range scans {
-				g := mk("global", "database/sql.ErrNoRows", 0, nil)
-				if k, v, _ := eqFact(s, sc.Res, g); k && v {
-					noRows = true
-				}
-				for _, ie := range calls(s, cErrorsIs) {
-					if len(ie.Args) == 2 && ie.Args[0] == sc.Res && ie.Args[1] == g {
-						if k, v, _ := boolFact(s, ie.Res); k && v {
-							noRows = true
-						}
-					}
-				}
-			}
-			switch {
-			case isSt && isNF:
-				nNF++
-				r.Check(noRows, rule, key, w.pos(s.RetPos), "a NotFound status is produced on a path that did not establish Scan's error to be sql.ErrNoRows: any read failure would then look like 'no previous checkpoint' and trigger trust-on-first-use; path: "+pathString(engFor(w, 4, 1), s))
-			case isSt:
-				r.Pass(rule, key, w.pos(s.RetPos), "")
-			default:
-				// a raw error: must not be dropped for the no-rows case
-				r.Check(!noRows, rule, name+" | no-rows reported as NotFound", w.pos(s.RetPos), "sql.ErrNoRows is returned raw instead of a NotFound status (first use would never be possible)")
-			}
-		}
-		if nNF == 0 {
-			r.Fail(rule, name+" | NotFound path exists", "", "no path reports NotFound for an absent row (first use impossible)")
-		}
-	}
-	if sums, _, ok := explore(w, r, rule, fnMemGet, 4, 1); ok {
-		fn := w.fn(fnMemGet)
-		read := mk("field", "read", 0, nil, recvParam(fn))
-		for _, s := range sums {
-			if len(s.Rets) != 2 {
-				continue
-			}
-			key := fnMemGet + " | NotFound iff no snapshot"
-			k, isNil, _ := nilFact(s, read)
-			if s.Rets[1].Kind == "nil" {
-				want := mk("field", "rawChkpt", 0, nil, read)
-				r.Check(k && !isNil && s.Rets[0] == want, rule, key, w.pos(s.RetPos), "in-memory GetLatest returns "+short(s.Rets[0].String())+", want the snapshot's bytes under read != nil")
-			} else {
-				_, isNF := isNotFoundCtor(s.Rets[1])
-				r.Check(k && isNil && isNF, rule, key, w.pos(s.RetPos), "in-memory GetLatest reports an error other than NotFound, or NotFound while a snapshot exists")
-			}
-		}
-	}
-}
 
 // C07.e ADAPTER
 func ruleAdapter(w *World, r *Run, rule string) {
@@ -1261,318 +943,13 @@ func ruleAdapter(w *World, r *Run, rule string) {
 
 // ---------------------------------------------------------------- C05.b LOCKSET, C05.c CAS, C05.d SNAPSHOT-PAIRING
 
-func ruleLockset(w *World, r *Run, rule string) {
-	ck := w.structField(pInmem, "inMemoryPersistence", "checkpoints")
-	if ck == nil {
-		r.Undecided(rule, "inMemoryPersistence.checkpoints", "", "field not found")
-		return
-	}
-	// functions of the package that touch the map directly
-	touch := map[*ssa.Function]bool{}
-	var pkgFns []*ssa.Function
-	for _, fn := range w.prodFns() {
-		if pkgPathOf(fn) != pInmem {
-			continue
-		}
-		pkgFns = append(pkgFns, fn)
-		for _, b := range fn.Blocks {
-			for _, in := range b.Instrs {
-				if fa, ok := in.(*ssa.FieldAddr); ok && fieldOfAddr(fa) == ck && !baseIsLocalAlloc(fa.X) {
-					touch[fn] = true
-				}
-			}
-		}
-	}
-	// static callers inside the module
-	hasStaticCaller := map[*ssa.Function]bool{}
-	for _, fn := range w.prodFns() {
-		for _, b := range fn.Blocks {
-			for _, in := range b.Instrs {
-				if c, ok := in.(ssa.CallInstruction); ok {
-					if sc := c.Common().StaticCallee(); sc != nil && sc != fn {
-						if _, isClosure := c.Common().Value.(*ssa.MakeClosure); !isClosure {
-							hasStaticCaller[sc] = true
-						}
-					}
-				}
-			}
-		}
-	}
-	nAccess := 0
-	for _, fn := range pkgFns {
-		if fn.Synthetic != "" || (hasStaticCaller[fn] && fn.Parent() == nil && !ast_IsExported(fn.Name())) {
-			continue // analysed through inlining in its callers
-		}
-		sums, _, ok := exploreFn(w, r, rule, fn, 4, 2)
-		if !ok {
-			continue
-		}
-		for _, s := range sums {
-			held := "" // "", R, W
-			var mu *Term
-			for _, ev := range s.Events {
-				switch {
-				case ev.Kind == "call" && strings.HasPrefix(ev.Callee, "(*sync.RWMutex)."):
-					op := strings.TrimPrefix(ev.Callee, "(*sync.RWMutex).")
-					if !(ev.Recv != nil && ev.Recv.Kind == "faddr" && ev.Recv.Name == "mu") {
-						continue
-					}
-					switch op {
-					case "Lock":
-						if held != "" {
-							r.Fail(rule, funcNameOrSSA(fn)+" | no re-entrant locking", w.pos(ev.Pos), "Lock while the mutex is already held (self-deadlock)")
-						}
-						held, mu = "W", ev.Recv
-					case "RLock":
-						if held != "" {
-							r.Fail(rule, funcNameOrSSA(fn)+" | no re-entrant locking", w.pos(ev.Pos), "RLock while the mutex is already held")
-						}
-						held, mu = "R", ev.Recv
-					case "Unlock":
-						r.Check(held == "W" && ev.Recv == mu, rule, funcNameOrSSA(fn)+" | Unlock pairs with Lock", w.pos(ev.Pos), "Unlock without a matching Lock on this path")
-						held = ""
-					case "RUnlock":
-						r.Check(held == "R" && ev.Recv == mu, rule, funcNameOrSSA(fn)+" | RUnlock pairs with RLock", w.pos(ev.Pos), "RUnlock without a matching RLock on this path")
-						held = ""
-					}
-				case (ev.Kind == "mapread" || ev.Kind == "mapupdate" || ev.Kind == "mapdelete") && ev.Recv != nil && ev.Recv.Kind == "field" && ev.Recv.Name == "checkpoints":
-					nAccess++
-					key := funcNameOrSSA(fn) + " | " + ev.Kind + " of the checkpoint map under the lock"
-					sameBase := mu != nil && mu.Args[0] == ev.Recv.Args[0]
-					if ev.Kind == "mapread" {
-						r.Check(held != "" && sameBase, rule, key, w.pos(ev.Pos), "the checkpoint map is read without holding its mutex (data race with a concurrent writer)")
-					} else {
-						r.Check(held == "W" && sameBase, rule, key, w.pos(ev.Pos), "the checkpoint map is written while holding "+map[string]string{"": "no lock", "R": "only the read lock"}[held]+" (concurrent writers race; lost updates)")
-					}
-				}
-			}
-			if held != "" {
-				r.Fail(rule, funcNameOrSSA(fn)+" | lock released on every exit", w.pos(s.RetPos), "path returns with the mutex still held")
-			}
-		}
-	}
-	if nAccess < 3 {
-		r.Undecided(rule, "lockset", "", fmt.Sprintf("vacuity floor: only %d accesses to the checkpoint map seen", nAccess))
-	}
-}
 
 func ast_IsExported(n string) bool { return n != "" && n[0] >= 'A' && n[0] <= 'Z' }
 
 var snapshotEq = map[string]bool{"reflect.DeepEqual": true, "bytes.Equal": true}
 
-func ruleCompareAndSet(w *World, r *Run, rule string) {
-	sums, e, ok := explore(w, r, rule, fnMemExpect, 4, 1)
-	if !ok {
-		return
-	}
-	var expected *Term // the caller's snapshot pointer, learned from the found/equal path
-	type upd struct {
-		s  Summary
-		ev Event
-	}
-	var ups []upd
-	for _, s := range sums {
-		for _, ev := range eventsOfKind(s, "mapupdate") {
-			ups = append(ups, upd{s, ev})
-		}
-	}
-	if len(ups) == 0 {
-		r.Undecided(rule, fnMemExpect, "", "no map update found")
-		return
-	}
-	// pass 1: learn the expected-old term from equality facts
-	for _, u := range ups {
-		for _, ce := range u.s.Events {
-			if ce.Kind == "call" && snapshotEq[ce.Callee] && len(ce.Args) == 2 {
-				for _, a0 := range ce.Args {
-					if p := pointerParamIn(a0); p != nil {
-						expected = p
-					}
-				}
-			}
-		}
-	}
-	for _, u := range ups {
-		s, ev := u.s, u.ev
-		key := fnMemExpect + " | map written only when the caller's snapshot equals the current value"
-		// lookup inside the critical section with the same key
-		var lk *Event
-		lockSeq := 0
-		for _, x := range s.Events {
-			x := x
-			if x.Kind == "call" && x.Callee == "(*sync.RWMutex).Lock" {
-				lockSeq = x.Seq
-			}
-			if x.Kind == "mapread" && x.Recv == ev.Recv && len(x.Args) == 1 && x.Args[0] == ev.Args[0] && x.Seq < ev.Seq {
-				lk = &x
-			}
-		}
-		if lk == nil || lockSeq == 0 || lk.Seq < lockSeq {
-			r.Fail(rule, key, w.pos(ev.Pos), "the map is written without re-reading the current value for the same key inside the same critical section")
-			continue
-		}
-		okT := mk("lookup", "ok", 0, nil, ev.Recv, ev.Args[0])
-		valT := mk("lookup", "val", 0, nil, ev.Recv, ev.Args[0])
-		kf, found, _ := boolFact(s, okT)
-		if !kf {
-			r.Fail(rule, key, w.pos(ev.Pos), "the write does not depend on whether a current value exists")
-			continue
-		}
-		if found {
-			eq := false
-			var exp *Term
-			for _, ce := range calls(s, "reflect.DeepEqual", "bytes.Equal") {
-				if len(ce.Args) != 2 || ce.Seq > ev.Seq {
-					continue
-				}
-				if k, v, _ := boolFact(s, ce.Res); k && v {
-					for i := 0; i < 2; i++ {
-						if mentions(ce.Args[i], valT) && !mentions(ce.Args[1-i], valT) {
-							exp = pointerParamIn(ce.Args[1-i])
-							eq = exp != nil
-						}
-					}
-				}
-			}
-			r.Check(eq && exp == expected, rule, key, w.pos(ev.Pos), "a current value exists but the write is not guarded by equality with the caller's snapshot (an update verified against a superseded state would be stored: lost update / regression); path: "+pathString(e, s))
-		} else {
-			good := false
-			if expected != nil {
-				if k, isNil, _ := nilFact(s, expected); k && isNil {
-					good = true
-				}
-			}
-			r.Check(good, rule, key, w.pos(ev.Pos), "no current value exists but the caller expected one (or the expectation is not tested): the write must be refused; path: "+pathString(e, s))
-		}
-	}
-	// conflicting cases must return errors: paths where snapshot != current do not write (covered above by construction), and every non-writing path returns non-nil
-	for _, s := range sums {
-		if len(eventsOfKind(s, "mapupdate")) == 0 {
-			r.Check(len(s.Rets) == 1 && s.Rets[0].Kind != "nil", rule, fnMemExpect+" | conflict reported as error", w.pos(s.RetPos), "a path that does not write reports success (lost accepted update)")
-		}
-	}
-}
 
-// pointerParamIn finds a pointer-typed parameter that t dereferences (deref(p) or a field read through p).
-func pointerParamIn(t *Term) *Term {
-	var out *Term
-	anySub(t, func(x *Term) bool {
-		if x.Kind == "param" && x.Typ != nil {
-			if pt, ok := x.Typ.Underlying().(*types.Pointer); ok {
-				// the snapshot pointer, not the store itself (the receiver owns a mutex)
-				if st, ok := pt.Elem().Underlying().(*types.Struct); ok {
-					for i := 0; i < st.NumFields(); i++ {
-						if strings.Contains(st.Field(i).Type().String(), "sync.") {
-							return false
-						}
-					}
-				}
-				out = x
-			}
-		}
-		return false
-	})
-	return out
-}
 
-func ruleSnapshotPairing(w *World, r *Run, rule string) {
-	// readWriter.Set passes rw.read as expected-old and stores exactly c
-	if sums, _, ok := explore(w, r, rule, fnMemSet, 4, 1); ok {
-		fn := w.fn(fnMemSet)
-		recv := recvParam(fn)
-		read := mk("field", "read", 0, nil, recv)
-		write := mk("field", "write", 0, nil, recv)
-		for _, s := range sums {
-			var wc []Event
-			for _, ev := range s.Events {
-				if ev.Kind == "call" && ev.Callee == "dyn" && ev.Recv == write {
-					wc = append(wc, ev)
-				}
-			}
-			good := len(wc) == 1 && len(wc[0].Args) == 2 && wc[0].Args[0] == read && len(s.Rets) == 1 && s.Rets[0] == wc[0].Res
-			if good {
-				nv := wc[0].Args[1]
-				good = nv.Kind == "structval" && len(nv.Args) == 1 && nv.Args[0].Name == "rawChkpt" && nv.Args[0].Args[0] == paramN(fn, 0)
-			}
-			r.Check(good, rule, fnMemSet+" | write(expected = the snapshot read at WriteOps, new = the bytes given)", w.pos(s.RetPos), "Set does not hand the handle's own snapshot and the given bytes to the compare-and-set, or drops its verdict")
-		}
-	}
-	// WriteOps: snapshot taken under the lock for the requested log; write closure bound to the same log ID
-	if sums, _, ok := explore(w, r, rule, fnMemWriteOps, 4, 1); ok {
-		fn := w.fn(fnMemWriteOps)
-		recv := recvParam(fn)
-		logID := paramN(fn, 0)
-		ck := mk("field", "checkpoints", 0, nil, recv)
-		for _, s := range sums {
-			if len(s.Rets) != 2 || s.Rets[0].Kind != "alloc" {
-				r.Fail(rule, fnMemWriteOps+" | handle shape", w.pos(s.RetPos), "WriteOps does not return a freshly built handle")
-				continue
-			}
-			h := s.Rets[0]
-			rd, wr := memField(s, h, "read"), memField(s, h, "write")
-			okT := mk("lookup", "ok", 0, nil, ck, logID)
-			k, found, _ := boolFact(s, okT)
-			key := fnMemWriteOps + " | snapshot = current value of the requested log"
-			switch {
-			case !k:
-				r.Fail(rule, key, w.pos(s.RetPos), "handle built without looking the requested log up")
-			case found:
-				val := mk("lookup", "val", 0, nil, ck, logID)
-				good := rd != nil && rd.Kind == "alloc" && s.Mem[rd.key] == val
-				r.Check(good, rule, key, w.pos(s.RetPos), "the handle's snapshot is not a copy of checkpoints[logID]")
-			default:
-				r.Check(rd == nil || rd.Kind == "nil" || rd.Kind == "zero", rule, key, w.pos(s.RetPos), "log absent but the handle carries a snapshot")
-			}
-			// closure binding
-			good := wr != nil && wr.Kind == "closure"
-			if good {
-				cfn := w.funcs[wr.Name]
-				good = cfn != nil
-				if good {
-					// the closure must bind the requested logID (by cell) and the same persistence object
-					boundLog, boundP := false, false
-					for i, fv := range cfn.FreeVars {
-						if i >= len(wr.Args) {
-							break
-						}
-						b := wr.Args[i]
-						if fv.Name() == "logID" || typeStr(fv.Type()) == "*string" {
-							if b.Kind == "alloc" && s.Mem[b.key] == logID {
-								boundLog = true
-							}
-						}
-						if b.Kind == "alloc" && s.Mem[b.key] == recv {
-							boundP = true
-						}
-					}
-					good = boundLog && boundP
-				}
-			}
-			r.Check(good, rule, fnMemWriteOps+" | write closure bound to the same store and log ID", w.pos(s.RetPos), "the handle's write function is not bound to this store and the requested log ID")
-		}
-	}
-	// the closure itself: updates the key it was bound to, with the expected/new it was given
-	if fn := w.fn(fnMemWriteOps); fn != nil {
-		for _, cl := range fn.AnonFuncs {
-			sums, _, ok := exploreFn(w, r, rule, cl, 4, 1)
-			if !ok {
-				continue
-			}
-			var logFV *Term
-			for _, fv := range cl.FreeVars {
-				if typeStr(fv.Type()) == "*string" {
-					logFV = mk("deref", "", 0, nil, mk("freevar", fv.Name(), 0, fv.Type()))
-				}
-			}
-			for _, s := range sums {
-				for _, ev := range eventsOfKind(s, "mapupdate") {
-					good := logFV != nil && ev.Args[0] == logFV && len(cl.Params) == 2 && ev.Args[1] == mk("param", cl.Params[1].Name(), 0, cl.Params[1].Type())
-					r.Check(good, rule, cl.String()+" | writes (bound log ID -> the new state given)", w.pos(ev.Pos), "the write closure stores "+short(ev.Args[1].String())+" under "+short(ev.Args[0].String()))
-				}
-			}
-		}
-	}
-}
 
 // C05.f GLOBALS
 func ruleGlobals(w *World, r *Run, rule string, pkgs []string) {
@@ -1631,55 +1008,3 @@ func ruleNoInplace(w *World, r *Run, a *updAnalysis, rule string) {
 	}
 }
 
-// C12.b STORAGE-KEYED
-func ruleStorageKeyed(w *World, r *Run, rule string) {
-	// SQL: statements bind the handle's logID to the key column
-	for _, name := range []string{fnSQLWGet, fnSQLRGet} {
-		sums, _, ok := explore(w, r, rule, name, 4, 1)
-		if !ok {
-			continue
-		}
-		fn := w.fn(name)
-		lid := mk("field", "logID", 0, nil, recvParam(fn))
-		n := 0
-		for _, s := range sums {
-			for _, ev := range s.Events {
-				if ev.Kind == "call" && isSQLQuery(ev.Callee) {
-					n++
-					va := ev.Args[len(ev.Args)-1]
-					good := va.Kind == "varargs" && len(va.Args) == 1 && va.Args[0] == lid
-					r.Check(good, rule, name+" | query bound to the handle's log ID", w.pos(ev.Pos), "query arguments are "+short(va.String())+", want exactly the handle's log ID")
-				}
-			}
-		}
-		if n == 0 {
-			r.Undecided(rule, name, "", "no query seen")
-		}
-	}
-	if sums, _, ok := explore(w, r, rule, fnSQLReadOps, 4, 1); ok {
-		fn := w.fn(fnSQLReadOps)
-		for _, s := range sums {
-			h := s.Rets[0]
-			good := h.Kind == "alloc" && memField(s, h, "logID") == paramN(fn, 0) && memField(s, h, "db") == mk("field", "db", 0, nil, recvParam(fn))
-			r.Check(good, rule, fnSQLReadOps+" | reader bound to the requested log ID", w.pos(s.RetPos), "ReadOps builds a reader for a different log or database")
-		}
-	}
-	// in-memory: ReadOps snapshot is checkpoints[logID]
-	if sums, _, ok := explore(w, r, rule, fnMemReadOps, 4, 1); ok {
-		fn := w.fn(fnMemReadOps)
-		ck := mk("field", "checkpoints", 0, nil, recvParam(fn))
-		logID := paramN(fn, 0)
-		for _, s := range sums {
-			h := s.Rets[0]
-			rd := memField(s, h, "read")
-			k, found, _ := boolFact(s, mk("lookup", "ok", 0, nil, ck, logID))
-			good := k
-			if k && found {
-				good = rd != nil && rd.Kind == "alloc" && s.Mem[rd.key] == mk("lookup", "val", 0, nil, ck, logID)
-			} else if k {
-				good = rd == nil || rd.Kind == "nil" || rd.Kind == "zero"
-			}
-			r.Check(good, rule, fnMemReadOps+" | snapshot of the requested log", w.pos(s.RetPos), "ReadOps hands out the state of a different log")
-		}
-	}
-}
